@@ -164,20 +164,22 @@ Proof.
 Qed.
 
 Local Open Scope string_scope.
-(* every map range of the repository (regenerated on every run) is one of the accounted sites *)
+(* every map range of the repository (regenerated on every run) is accounted for.
+   Three shapes are order-free wherever they stand, by the generic theorems alone (the translator gives these classes only
+   to loops whose single statement uses the loop's own key/value variables and computes nothing):
+     collect-sorted  keys or values appended to a slice that is then sorted with sort.Strings/Ints/Float64s and walked
+                     (sorted_walk_order_free);
+     delete          delete(m, key) for every key (delete_all_order_free);
+     copy-entries    dst[key] = value for every entry: distinct keys (copy_all_order_free).
+   So a loop of these shapes may be renamed, moved or added without a new argument. *)
+Definition generic_classes : list string := ["collect-sorted"; "delete"; "copy-entries"].
+(* shapes whose order-freeness rests on something particular: identified by file|function|class (the text of the ranged
+   expression is not part of the identity, so renaming a local changes nothing) *)
 Definition accounted_sites : list string := [
-  (* keys are collected, sorted, then walked: sorted_walk_order_free *)
   (* collected, sorted with typeCheckedBefore (a total order: tk_total/tk_antisym/tk_trans), walked: gsorted_walk_order_free *)
-  "notations/jschema/checker/check_schema.go|CheckRootSchema|rootSchema.TypesList()|collect-sorted-by:sort.Slice:typeCheckedBefore";
-  "notations/jschema/loader/compiler_all_of.go|CompileAllOf|rootSchema.TypesList()|collect-sorted";
-  "notations/jschema/loader/unnamed.go|sortedTypeNames|m|collect-sorted";
-  "notations/jschema/checker/check_schema.go|checkSchema.reportableTypeName|c.foundTypeNames|collect-sorted";
-  (* clearing a map: delete_all_order_free *)
-  "notations/jschema/checker/check_schema.go|checkSchema.checkLinksOfNode|c.allowedJsonTypes|delete";
-  "notations/jschema/checker/check_schema.go|checkSchema.checkLinksOfNode|c.foundTypeNames|delete";
-  (* copying entries with distinct keys into another map: copy_all_order_free *)
-  "notations/jschema/loader/compiler_all_of.go|CompileAllOf|c.foundTypes|call:rootSchema.AddType";
-  "notations/jschema/loader/compiler_all_of.go|allOfConstraintCompiler.extendWith|schem.TypesList()|mapset"
+  "notations/jschema/checker/check_schema.go|CheckRootSchema|collect-sorted-by:sort.Slice:typeCheckedBefore";
+  (* AddType per entry of a map with distinct keys into another map: copy_all_order_free *)
+  "notations/jschema/loader/compiler_all_of.go|CompileAllOf|call:rootSchema.AddType"
 ].
 (* loops that stop at the first key that matches (first_match_order_free): the translator lists the keys of the map
    literal; the loop is accounted for when it is at one of these places AND every key belongs to one family of
@@ -199,9 +201,9 @@ Fixpoint split_at (sep : Ascii.ascii) (s cur : string) : list string :=
   end.
 Definition fm_prefix : string := "first-match:".
 Definition site_ok (s : string) : bool :=
-  smem s accounted_sites ||
   match split_at (Ascii.ascii_of_nat 124) s EmptyString with
   | [file; fn; expr; class] =>
+    smem class generic_classes || smem (file ++ "|" ++ fn ++ "|" ++ class) accounted_sites ||
     String.prefix fm_prefix class &&
     smem (file ++ "|" ++ fn ++ "|" ++ expr) first_match_places &&
     forallb (fun k => smem k exclusive_family)
